@@ -2128,6 +2128,12 @@ class TrackFragmentHeaderBox(FullBox):
     def encode_box_fields(self, dest):
         if self.base_data_offset is None:
             self.base_data_offset = self.find_atom('moof').position
+        elif not (self.flags & self.base_data_offset_present):
+            # without an explicit base_data_offset the base is the first byte of
+            # the moof, wherever that box is being written now
+            moof = self.find_atom('moof', no_exception=True)
+            if moof is not None and moof.position != self.base_data_offset:
+                object.__setattr__(self, 'base_data_offset', moof.position)
         w = FieldWriter(self, dest)
         w.write('I', 'track_id')
         if self.flags & self.base_data_offset_present:
